@@ -289,6 +289,20 @@ impl Array4 {
         self.estimator.set_hip_accum(value);
     }
 
+    /// Check whether the estimator is in out-of-order mode (HIP accumulator invalid)
+    pub(super) fn is_out_of_order(&self) -> bool {
+        self.estimator.is_out_of_order()
+    }
+
+    /// Overwrite the estimator's mode and HIP accumulator
+    ///
+    /// This is used when converting a union result to another target type, so that the
+    /// converted sketch reports the same estimate and bounds as the source.
+    pub(super) fn set_estimator_state(&mut self, out_of_order: bool, hip_accum: f64) {
+        self.estimator.set_out_of_order(out_of_order);
+        self.estimator.set_hip_accum(hip_accum);
+    }
+
     /// Check if the sketch is empty (all slots are zero)
     pub fn is_empty(&self) -> bool {
         self.num_at_cur_min == (1 << self.lg_config_k) && self.cur_min == 0
